@@ -116,6 +116,10 @@ def exercise(case):
                     nm = b.images[int(role[3:]) - 1]["name"]
                 apply_fault(url, fsname, nm, ft["kind"], ft.get("cut", 0))
             tracefs.take_log()
+            if case.get("flaky_open") and fsname == "vtrace":
+                fo = case["flaky_open"]
+                nm = {"summary": "summary.txt", "vol": b.names["vol"], "led": b.names["led"]}.get(fo["file"]) or b.images[int(fo["file"][3:]) - 1]["name"]
+                tracefs.arm_fault(url, nm, op=fo.get("op", "cat"), nth=fo.get("nth", 1), consume=fo.get("consume", 0.5), exc=TimeoutError)
             t0 = time.time()
             try:
                 tree = ceos_alos2.open_alos2(url, backend_options=dict(opts))
@@ -126,6 +130,7 @@ def exercise(case):
                 run["open_msg"] = str(e)[:200]
                 run["oserror"] = isinstance(e, OSError)
             run["open_s"] = round(time.time() - t0, 3)
+            run["open_fault_fired"] = bool(tracefs.clear_flaky())
             run["open_events"] = tracefs.take_log() if fsname == "vtrace" else []
             for i, im in enumerate(b.images):
                 rec = {"group": im["group"], "name": im["name"], "n": im["n"], "p": im["p"], "prefix": im["prefix"],
@@ -145,6 +150,9 @@ def exercise(case):
                     key, kind, rows = rows_of(sel, im["n"])
                     ld = {"sel": list(sel), "kind": kind, "rows": rows}
                     tracefs.take_log()
+                    if case.get("flaky_load") and fsname == "vtrace":
+                        fl = case["flaky_load"]
+                        tracefs.arm_fault(url, im["name"], op="read", nth=fl.get("nth", 1), consume=fl.get("consume", 0.5))
                     try:
                         vals = da.isel(rows=key).values
                         if kind == "int":
@@ -156,6 +164,7 @@ def exercise(case):
                     except BaseException as e:  # noqa: B902
                         ld["outcome"] = "error"
                         ld["msg"] = f"{type(e).__name__}: {e}"[:200]
+                    ld["fault_fired"] = bool(tracefs.clear_flaky())
                     ld["events"] = tracefs.take_log() if fsname == "vtrace" else []
                     rec["loads"].append(ld)
         finally:
